@@ -223,7 +223,13 @@ func TestBlockTemplate(t *testing.T) {
 		// "gates": the subsidy halves every 5 blocks (and the version gates switch on at heights 4/6/8), so that
 		// templates are built for the first and the last block of a subsidy interval
 		fam := rapid.SampledFrom([]ce.Family{ce.FamFlat, ce.FamGates}).Draw(t, "family")
-		e, err := pe.New(pe.Config{Family: fam, Maturity: mat, Policy: pol, MPol: mpol, Blocks: int(mat) + rapid.IntRange(4, 8).Draw(t, "initialBlocks")})
+		// now and then a chain whose next heights need a two-byte script number with a leading zero byte (128..)
+		initial := int(mat) + rapid.IntRange(4, 8).Draw(t, "initialBlocks")
+		if rapid.IntRange(0, 9).Draw(t, "tallChain") == 0 {
+			initial = rapid.IntRange(122, 130).Draw(t, "tallBlocks")
+			fam = ce.FamFlat // 25 halvings would leave no coins worth spending
+		}
+		e, err := pe.New(pe.Config{Family: fam, Maturity: mat, Policy: pol, MPol: mpol, Blocks: initial})
 		if err != nil {
 			t.Fatalf("VERIF-INFRA: %v", err)
 		}
